@@ -61,6 +61,7 @@ def run_history(nworkers, max_fails, history):
     from taskiq.cli.worker.args import WorkerArgs
     world = World(); install(world, pm_mod)
     deaths = {}            # tick at which a process died -> checked for replacement two ticks later
+    deaths_total = []
     def check_state(final=False):
         m = mgr
         if len(m.workers) != nworkers: world.problems.append(f"C17: the number of worker slots changed to {len(m.workers)} (configured {nworkers})")
@@ -76,7 +77,7 @@ def run_history(nworkers, max_fails, history):
         if world.tick >= len(history): raise StopHistory()
         dies, sig = history[world.tick]; world.tick += 1
         for slot in dies:
-            if slot < len(mgr.workers) and mgr.workers[slot].alive: mgr.workers[slot].alive = False; deaths[mgr.workers[slot]] = world.tick - 1
+            if slot < len(mgr.workers) and mgr.workers[slot].alive: mgr.workers[slot].alive = False; deaths[mgr.workers[slot]] = world.tick - 1; deaths_total.append(slot)
         if sig == 'HUP': world.handlers[_signal.SIGHUP](_signal.SIGHUP, None)
         elif sig == 'INT': world.handlers[_signal.SIGINT](_signal.SIGINT, None)
         elif sig == 'TERM': world.handlers[_signal.SIGTERM](_signal.SIGTERM, None)
@@ -90,6 +91,8 @@ def run_history(nworkers, max_fails, history):
     except BaseException as e: raised = f"{type(e).__name__}: {e}"
     pr = world.problems
     if raised: pr.append(f"C18: the manager died with {raised}")
+    # ---- C18: the failure status needs at least max_fails real worker deaths (restarts requested by reload-all never consume the budget)
+    if status == -1 and max_fails >= 1 and len(deaths_total) < max_fails: pr.append(f"C18: failure status after only {len(deaths_total)} worker death(s) with max_fails={max_fails} (reload-all restarts were charged to the failure budget)")
     # ---- C18: budget
     fails = [g for g in world.gets if g[0] == 'ReloadOneAction' and g[2] is False]
     if max_fails >= 1:
@@ -130,7 +133,7 @@ def run(sc):
             for hist in itertools.product(events, repeat=3):
                 pr = run_history(nworkers, max_fails, list(hist) + [((), None), ((), None)]); n += 1
                 if pr and len(fails) < 200: fails.append({'key': f"workers={nworkers} max_fails={max_fails} history={hist}", 'config': {'workers': nworkers, 'max_fails': max_fails, 'ticks': [list(map(str, h)) for h in hist]}, 'failed_clauses': pr[:5]})
-    return {'reproduced': bool(fails), 'runs': n, 'n_failures': len(fails), 'failures': fails[:6], 'bound': 'worker counts 1..2, all event histories of 3 ticks (+2 quiet ticks), max_fails in {-1,1,2}'}
+    return {'reproduced': bool(fails), 'runs': n, 'n_failures': len(fails), 'failures': fails[:400], 'bound': 'worker counts 1..2, all event histories of 3 ticks (+2 quiet ticks), max_fails in {-1,1,2}'}
 
 if __name__ == '__main__':
     sc = json.load(open(sys.argv[1])) if len(sys.argv) > 1 else {}
